@@ -545,6 +545,16 @@ func discharge(o *Obligation, prelude, dir string, timeoutS, seed int, both bool
 			// vacuity guard: the assumptions were not shown contradictory within the budget
 			o.Status = "cover-ok"
 			o.Detail = "not refuted: " + o.Detail
+			// ... unless no solver could even read the query: then the guard did not run at all
+			allErr := len(results) > 0
+			for _, r := range results {
+				if r.verdict != "error" {
+					allErr = false
+				}
+			}
+			if allErr {
+				o.Status = "cover-error"
+			}
 		}
 		return
 	}
